@@ -2333,6 +2333,100 @@ def tie_sixth_round(chk, uwg):
                W.ROUND_TRIP_RULE, mismatches=bad, branches=br)
 
 
+def tie_seventh_round(chk, uwg):
+    """Seventh round (families in harness/x2_util.py): (a) COMMENT TEXT holding characters the csv layer gives a meaning to
+    (quotes after blanks / in the middle / at the end of a cell, closed and doubled quotes, commas); (b) the value ZERO on
+    the dictionary route: every numeric leaf of the dictionaries of a custom archetype and its schedule set at 0 and 0.0."""
+    import v2_util as V
+    import x2_util as X
+    UWG = uwg.UWG
+    quick = chk.tier == 'quick'
+    n, bad, br = X.quoted_comments(chk, uwg, lambda m: {a: repr(getattr(m, a)) for a in UWG.PARAMETER_LIST})
+    chk.direct('comment-text(double quotes after blanks / inside / at the end of cells, doubled quotes, commas)', n, n, X.QUOTE_RULE,
+               mismatches=bad, branches=br)
+    # (b) zero
+    work = chk.work()
+    epw = os.path.join(core.REPO, 'resources', 'SGP_Singapore.486980_IWEC.epw')
+    b, s_ = V.constructed_archetype(uwg, 'unheatedshed', 'new', k=1)
+    n = bad = 0
+    br = {}
+
+    def fail(what, case, observed, expected):
+        nonlocal bad
+        bad += 1
+        if bad <= 3:
+            chk.violation('impl-violation', what, case=case, observed=observed, expected=expected)
+    accepted_building = []
+    for cls, obj in ((uwg.BEMDef, b), (uwg.SchDef, s_)):
+        tpl = json.loads(json.dumps(obj.to_dict()))
+        for path in X.numeric_leaves(tpl):
+            for z in (0, 0.0):
+                n += 1
+                d0 = X.with_leaf(tpl, path, z)
+                case = {'dictionary': '%s.to_dict() of a custom archetype built with the real constructors' % cls.__name__,
+                        'entry set to zero': '%s = %r (was %r)' % (X.path_text(path), z, X.get_path(tpl, path))}
+                try:
+                    back = cls.from_dict(copy.deepcopy(d0))
+                except Exception:                                  # noqa: BLE001 - zero is not in the domain of this entry
+                    br['refused'] = br.get('refused', 0) + 1
+                    continue
+                key = 'accepted:' + ('.'.join(str(p) for p in path if not isinstance(p, int)))
+                br[key] = br.get(key, 0) + 1
+                try:
+                    d1 = back.to_dict()
+                    got = X.get_path(d1, path)
+                except Exception as e:                            # noqa: BLE001
+                    fail('to_dict of an object accepted by from_dict', case, '%s: %s' % (type(e).__name__, str(e)[:160]), 'the dictionary')
+                    continue
+                if got != z or json.dumps(d1, sort_keys=True) != json.dumps(json.loads(json.dumps(d0)), sort_keys=True) and first_diff(d0, d1, strict=False):
+                    fail('%s.from_dict -> to_dict is the identity on every accepted dictionary (entries typed as zero)' % cls.__name__,
+                         case, 'the entry comes back as %r%s' % (got, '' if got != z else '; first difference: %s' % (first_diff(d0, d1, strict=False),)),
+                         'the entry as typed: %r' % (z,))
+                elif cls is uwg.BEMDef and path[0] == 'building' and z == 0 and isinstance(z, int):
+                    accepted_building.append(path)
+    # the model route for the building entries the constructor accepts at zero
+    with quiet():
+        m = UWG.from_param_args(10.0, 0.5, 0.8, 0.1, 0.1, '1A', month=1, day=2, nday=1, dtsim=300,
+                                bld=[('unheatedshed', 'new', 0.4), ('largeoffice', 'pst80', 0.6)], epw_path=epw, new_epw_dir=work,
+                                new_epw_name='x2_zero.epw', ref_bem_vector=[b], ref_sch_vector=[s_])
+        dm = json.loads(json.dumps(m.to_dict(include_refDOE=True)))
+    pick = accepted_building if not quick else accepted_building[:0] + chk.rng.sample(accepted_building, min(3, len(accepted_building)))
+    pick = sorted(set(pick) | set(p for p in accepted_building if 'cap' in str(p[-1])))     # capacities: 0 = "no plant"
+    for path in pick:
+        n += 1
+        br['model route'] = br.get('model route', 0) + 1
+        full = ('ref_bem_vector', 0) + path
+        d0 = X.with_leaf(dm, full, 0)
+        case = {'dictionary': 'UWG.to_dict(include_refDOE=True) of a model with a custom archetype (real constructors)',
+                'entry set to zero': '%s = 0 (was %r)' % (X.path_text(full), X.get_path(dm, full))}
+        try:
+            with quiet():
+                m2 = UWG.from_dict(copy.deepcopy(d0), epw_path=epw, new_epw_dir=work, new_epw_name='x2_zero2.epw')
+                d1 = m2.to_dict(include_refDOE=True)
+                got = X.get_path(d1, full)
+                live = []
+                try:
+                    m2.generate()
+                    live = [getattr(x.building, path[-1], None) for x in m2.BEM if x.bldtype == 'unheatedshed']
+                except Exception:                                 # noqa: BLE001 - whether zero can be GENERATED is not this tie's subject
+                    br['generate() refuses the zero'] = br.get('generate() refuses the zero', 0) + 1
+        except Exception as e:                                    # noqa: BLE001
+            fail('UWG.from_dict of a dictionary whose custom building dictionary is accepted by BEMDef.from_dict', case,
+                 '%s: %s' % (type(e).__name__, str(e).split('\n')[0][:160]), 'a model')
+            continue
+        if got != 0 or (live and live[0] is not None and live[0] != 0):
+            fail('UWG.from_dict -> to_dict is the identity on entries typed as zero', case,
+                 'the entry comes back as %r; the simulated archetype carries %s = %r' % (got, path[-1], live and live[0]), '0 on both')
+    chk.direct('zero-on-the-dictionary-route(every numeric entry of BEMDef / SchDef dictionaries at 0 and 0.0)', n, n,
+               'the dictionaries of a custom archetype and of its schedule set (real constructors, to_dict): EVERY numeric entry '
+               '(building, mass / wall / roof elements and their materials - first and last layer -, schedule sets - first and last '
+               'cell -, loads) set to 0 and to 0.0, one at a time: from_dict refuses it (zero outside the domain of the entry) or '
+               'from_dict -> to_dict gives the dictionary back with the entry as typed (0 is a value, not "absent": heat_cap 0 = no '
+               'heating plant, coolcap 0 = no cooling); building entries accepted at zero (quick: the capacities and three others) '
+               'also inside UWG.to_dict(include_refDOE=True) -> UWG.from_dict -> to_dict and on the archetype simulated after generate()',
+               mismatches=bad, branches=br)
+
+
 def run(chk):
     sys.path.insert(0, os.path.join(core.VERIF, 'harness'))
     from extract import paramtable
@@ -2356,6 +2450,7 @@ def run(chk):
         tie_stocks(chk, uwg, xtab)
         tie_identifiers(chk, uwg)
         tie_sixth_round(chk, uwg)
+        tie_seventh_round(chk, uwg)
     else:
         chk.notes.append('generators for the dictionary/route ties need a fully recognised table; skipped')
     tie_circumstances(chk, uwg, kinds, xtab)
